@@ -934,6 +934,7 @@ def _explore(ctx: Ctx, part: str, cfg: dict[str, Any], setup: Any, orc: Any, tra
         trace=trace if cfg["trace"] else None, env_cost=cfg.get("env_cost", 1), max_execs=_DEV_CAP,
     )
     ctx.extra[f"{part}_schedules"] += st["schedules"]
+    ctx.extra["config_sizes"].append(f"{part}:{json.dumps(cfg, sort_keys=True)} -> {st['schedules']}")
     ctx.extra[f"{part}_configs"] += 1
     ctx.extra[f"{part}_deadlocks"] += st["deadlocks"]
     ctx.extra["max_choice_points"] = max(ctx.extra["max_choice_points"], st["max_points"])
@@ -946,7 +947,7 @@ def run(ctx: Ctx) -> None:
     ctx.extra.update({
         "a_schedules": 0, "a_configs": 0, "a_deadlocks": 0, "b_schedules": 0, "b_configs": 0, "b_deadlocks": 0,
         "max_choice_points": 0, "max_steps": 0, "a_spawns": 0, "a_probes": 0, "b_backlog_at_exit": 0, "b_forced_closes": 0, "b_forced_closes_with_idle_timeout": 0,
-        "b_self_exits": 0, "b_quiescent_jumps": 0,
+        "b_self_exits": 0, "b_quiescent_jumps": 0, "config_sizes": [],
     })
     with bound_launcher():
         for cfg in configs_a(ctx):
